@@ -182,7 +182,12 @@ def list_subqueries(segment: BaseSegment) -> list[SubQueryTuple]:
     elif segment.type in ["from_clause", "from_expression"]:
         if from_expression_element := find_from_expression_element(segment):
             subquery = list_subqueries(from_expression_element)
-        for join_clause in list_join_clause(segment):
+        for join_clause in (
+            list_join_clause(segment)
+            if segment.type == "from_clause"
+            # one item of SQL89 style comma separated list, with explicit JOIN of its own
+            else segment.get_children("join_clause")
+        ):
             if from_expression_element := find_from_expression_element(join_clause):
                 subquery += list_subqueries(from_expression_element)
     elif is_set_expression(segment):
